@@ -580,6 +580,7 @@ static void self_test() {
 }
 int main(int argc, char** argv) {
     vh::init(argc, argv);
+    cio::install_cleanup();
     self_test();
     run_part();
     return vh::finish();
